@@ -78,6 +78,119 @@ def session(k):
     """(client->server, server->client) directions of a fresh session under exported session key k"""
     return Dir(sealkey(k, "client"), signkey(k, "client")), Dir(sealkey(k, "server"), signkey(k, "server"))
 
+# ---------------------------------------------------------------------------------------------
+# NTLMv2 authentication (MS-NLMP 3.3.2, 3.1.5.1.2, 3.2.5.1.2): CHALLENGE builder and the SERVER side
+NEG_UNICODE, NEG_KEY_EXCH, NEG_VERSION = 0x00000001, 0x40000000, 0x02000000
+CLIENT_FLAGS = 0x60088235      # what the client's NEGOTIATE asks for
+AV_EOL, AV_NB_COMPUTER, AV_NB_DOMAIN, AV_DNS_COMPUTER, AV_DNS_DOMAIN, AV_DNS_TREE, AV_FLAGS, AV_TIMESTAMP, AV_SINGLE_HOST, AV_TARGET_NAME, AV_CHANNEL_BINDINGS = range(11)
+
+def utf16(s): return s.encode("utf-16-le")
+def nt_hash(password): return md4(utf16(password))
+def ntowfv2(nthash, user_upper, domain): return hmac_md5(nthash, utf16(user_upper + domain))
+
+def av_pairs(pairs):
+    """[(id, value)] -> bytes, EOL appended"""
+    return b"".join(struct.pack("<HH", i, len(v)) + v for i, v in pairs) + struct.pack("<HH", 0, 0)
+
+def challenge_message(flags, server_challenge, target_info, target_name=b"", version=b"\x06\x01\xb1\x1d\x00\x00\x00\x0f", pre=b"", post=b""):
+    """CHALLENGE_MESSAGE: payload = pre ++ target_name ++ target_info ++ post"""
+    hdr = 48 + (8 if flags & NEG_VERSION else 0)
+    tn_off = hdr + len(pre)
+    ti_off = tn_off + len(target_name)
+    m = b"NTLMSSP\x00" + struct.pack("<I", 2) + struct.pack("<HHI", len(target_name), len(target_name), tn_off)
+    m += struct.pack("<I", flags) + server_challenge + b"\x00" * 8 + struct.pack("<HHI", len(target_info), len(target_info), ti_off)
+    if flags & NEG_VERSION: m += version
+    return m + pre + target_name + target_info + post
+
+class Reject(Exception): pass
+
+def parse_av(ti):
+    out = []; i = 0
+    while True:
+        if i + 4 > len(ti): raise Reject("AV pair list not terminated")
+        aid, ln = struct.unpack_from("<HH", ti, i); i += 4
+        if aid == AV_EOL: return out
+        if i + ln > len(ti): raise Reject("AV pair overruns")
+        out.append((aid, ti[i:i + ln])); i += ln
+
+def server_verify(user, domain, nthash, negotiate, challenge, token, upper=None, oem_codec="ascii"):
+    """An independent server: returns the exported session key when `token` authenticates the account
+    (user, domain, NT hash) in reply to `challenge`; raises Reject(reason) otherwise.
+    upper = the server's uppercase mapping (default: python str.upper)"""
+    up = upper if upper is not None else user.upper()
+    if len(token) < 64: raise Reject("shorter than the fixed AUTHENTICATE header")
+    if token[:8] != b"NTLMSSP\x00" or struct.unpack_from("<I", token, 8)[0] != 3: raise Reject("signature / message type")
+    flags = struct.unpack_from("<I", token, 60)[0]
+    fixed = 64 + (8 if flags & NEG_VERSION else 0) + 16           # ... Version (when flagged), MIC
+    if len(token) < fixed: raise Reject("no room for Version / MIC")
+    mic_off = fixed - 16
+    def field(pos, name):
+        ln, mx, off = struct.unpack_from("<HHI", token, pos)
+        if mx < ln: raise Reject(name + ": MaxLen < Len")
+        if off < fixed or off + ln > len(token): raise Reject("%s: (len %d, offset %d) outside the token payload [%d, %d)" % (name, ln, off, fixed, len(token)))
+        return token[off:off + ln]
+    lm, nt, dom_b, user_b, ws, ek = [field(12 + 8 * i, n) for i, n in enumerate(
+        ["LmChallengeResponse", "NtChallengeResponse", "DomainName", "UserName", "Workstation", "EncryptedRandomSessionKey"])]
+    enc = utf16 if flags & NEG_UNICODE else (lambda x: x.encode(oem_codec))
+    try:
+        if user_b != enc(user): raise Reject("UserName does not name the account")
+        if dom_b != enc(domain): raise Reject("DomainName does not name the account's domain")
+    except UnicodeEncodeError:
+        raise Reject("OEM-mode name outside ASCII (not decided here)")
+    # the server's own CHALLENGE
+    server_challenge = challenge[24:32]
+    ti_len, _, ti_off = struct.unpack_from("<HHI", challenge, 40)
+    target_info = challenge[ti_off:ti_off + ti_len]
+    key = ntowfv2(nthash, up, domain)
+    if len(nt) < 16 + 28: raise Reject("NtChallengeResponse too short for NTLMv2")
+    proof, temp = nt[:16], nt[16:]
+    if temp[0:2] != b"\x01\x01" or temp[2:8] != b"\x00" * 6 or temp[24:28] != b"\x00" * 4: raise Reject("NTLMv2_CLIENT_CHALLENGE framing")
+    if hmac_md5(key, server_challenge + temp) != proof: raise Reject("NTProofStr does not verify")
+    if not temp[28:].startswith(target_info): raise Reject("AV pairs of the CHALLENGE not echoed")
+    ts = [v for i, v in parse_av(target_info) if i == AV_TIMESTAMP]
+    if ts and temp[8:16] != ts[-1]: raise Reject("timestamp of the CHALLENGE not echoed")
+    client_challenge = temp[16:24]
+    if len(lm) != 24 or lm[16:] != client_challenge: raise Reject("LMv2 response does not carry the client challenge")
+    if hmac_md5(key, server_challenge + client_challenge) != lm[:16]: raise Reject("LMv2 proof does not verify")
+    session_base_key = hmac_md5(key, proof)
+    kxk = session_base_key
+    if flags & NEG_KEY_EXCH:
+        if len(ek) != 16: raise Reject("EncryptedRandomSessionKey is not 16 bytes")
+        exported = RC4(kxk).crypt(ek)
+    else:
+        exported = kxk
+    mic = token[mic_off:mic_off + 16]
+    zeroed = token[:mic_off] + b"\x00" * 16 + token[mic_off + 16:]
+    if hmac_md5(exported, negotiate + challenge + zeroed) != mic: raise Reject("MIC does not verify")
+    return exported, client_challenge
+
+def client_token(user, domain, nthash, negotiate, challenge, nonce, session_key, upper=None):
+    """What an MS-NLMP client (with this client's layout choices: no workstation, Version only when
+    flagged, AV pairs echoed unchanged, no trailing Z(4)) sends for the given randomness."""
+    up = upper if upper is not None else user.upper()
+    flags = struct.unpack_from("<I", challenge, 20)[0]
+    sc = challenge[24:32]
+    ti_len, _, ti_off = struct.unpack_from("<HHI", challenge, 40)
+    ti = challenge[ti_off:ti_off + ti_len]
+    ts = [v for i, v in parse_av(ti) if i == AV_TIMESTAMP][-1]
+    key = ntowfv2(nthash, up, domain)
+    temp = b"\x01\x01" + b"\x00" * 6 + ts + nonce + b"\x00" * 4 + ti
+    proof = hmac_md5(key, sc + temp)
+    nt = proof + temp
+    lm = hmac_md5(key, sc + nonce) + nonce
+    ek = RC4(hmac_md5(key, proof)).crypt(session_key)
+    enc = utf16 if flags & NEG_UNICODE else (lambda x: x.encode("utf-8"))
+    fields = [lm, nt, enc(domain), enc(user), b"", ek]
+    off = 64 + (8 if flags & NEG_VERSION else 0) + 16
+    hdr = b"NTLMSSP\x00" + struct.pack("<I", 3)
+    for f in fields:
+        hdr += struct.pack("<HHI", len(f), len(f), off); off += len(f)
+    hdr += struct.pack("<I", flags)
+    if flags & NEG_VERSION: hdr += bytes([6, 0]) + struct.pack("<H", 6002) + bytes([0, 0, 0, 15])
+    payload = b"".join(fields)
+    m = hmac_md5(session_key, negotiate + challenge + hdr + b"\x00" * 16 + payload)
+    return hdr + m + payload
+
 if __name__ == "__main__":
     assert md4(b"foo").hex() == "0ac6700c491d70fb8650940b1ca1e4b2"
     assert md4(b"").hex() == "31d6cfe0d16ae931b73c59d7e0c089c0"
@@ -87,4 +200,6 @@ if __name__ == "__main__":
     assert sealkey(b"foo", "server") == bytes([64, 125, 160, 17, 144, 165, 62, 226, 22, 125, 128, 31, 103, 141, 55, 40])
     d = Dir(b"encrypt", b"signing")
     assert d.seal(b"foo") == bytes([1, 0, 0, 0, 142, 146, 37, 160, 247, 244, 100, 58, 0, 0, 0, 0, 87, 164, 208])
+    # repo test vectors: test_ntowfv2, test_compute_response_v2
+    assert ntowfv2(nt_hash("foo"), "USER", "domain").hex() == "6e53b900978c871f91de06449d8b8b81"
     print("ok")
